@@ -131,8 +131,13 @@ namespace AIToolbox::POMDP {
             // separately, since the implied policy will take that action
             // forever anyway so there cannot be "cross-pollination" between
             // different actions.
+            // Note that the value of taking the worst reward forever is
+            // min / (1 - discount) for any discount below 1; bounding the
+            // denominator from below (to avoid dividing by zero) is only right
+            // when the discount is exactly 1, otherwise with negative rewards
+            // we would start above the value we are trying to bound.
             if (fasterConvergence)
-                oldAlpha.fill(ir.row(a).minCoeff() / std::max(0.0001, 1.0 - m.getDiscount()));
+                oldAlpha.fill(ir.row(a).minCoeff() / (m.getDiscount() < 1.0 ? 1.0 - m.getDiscount() : 0.0001));
             else
                 oldAlpha = ir.row(a);
 
